@@ -325,6 +325,13 @@ func (r *messageSetReader) readMessageV2(_ int64, key readBytesFunc, val readByt
 		return
 	}
 	if headerCount > 0 {
+		// every header takes at least two bytes: a count larger than what
+		// is left of the message set can only come from a truncated or
+		// corrupted record, and must not size an allocation.
+		if headerCount > int64(r.remain) {
+			err = errShortRead
+			return
+		}
 		headers = make([]Header, headerCount)
 		for i := range headers {
 			if err = r.readMessageHeader(&headers[i]); err != nil {
